@@ -157,7 +157,9 @@ _pb("C12", "contract-based deductive verification (pyvc): the right-boundary loo
     "token) is proved, for every well-formed tree and root child, to compute exactly the documented walk: a sibling that "
     "starts left of the current right edge is skipped, one that starts more than one token beyond it ends the walk, any other "
     "is absorbed and moves the edge to its last token; t_r is the final edge + 1 (over the contracts of right_sibling and "
-    "terminals; terminates). root_attach's target is never None and is a constituent dominating both neighbours (lemma over the proved lca "
+    "terminals; terminates). The target selection skips a child only when a neighbour lies beyond the sentence and otherwise "
+    "hands lca the tokens numbered t_l and t_r - two distinct tokens of this tree, subscripts in range (tokens numbered 1..n) - "
+    "which is what the following lemmas assume. root_attach's target is never None and is a constituent dominating both neighbours (lemma over the proved lca "
     "contract); it is neither the moved child nor below it, so the re-attachment creates no cycle (lemma over the "
     "contracts of terminals - complete and ordered - and lca, with the proved ancestor lemma); the root keeps another child "
     "(the left neighbour hangs below one); and the re-attachment step "
